@@ -263,7 +263,7 @@ var varNames = []string{"a", "b", "c", "x", "y", "z", "tmp_1", "Foo", "_u", "x2"
 var fieldNames = []string{"f", "g", "h", "port", "host", "name", "x", "a", "max_conn", "Flag", "t", "u", "db"}
 // block types: some differ only in case or underscores (they are different types to bind)
 var typeNames = []string{"srv", "db", "t", "u", "conf", "f", "x", "srv_x", "SrvX", "srvx", "Srv", "SRV", "d_b"}
-var blockNames = []string{`"n1"`, `"n2"`, `"a b"`, `"é"`, `""`, `"x.y"`, `"q\"q"`}
+var blockNames = []string{`"n1"`, `"n2"`, `"a b"`, `"é"`, `""`, `"x.y"`, `"q\"q"`, `"n1."`, `".n1"`, `"x.y."`, `"."`, `"n1.."`}
 
 func (g *Gen) lit(kind string) Lit {
 	switch kind {
@@ -512,6 +512,19 @@ func (g *Gen) expr1(sc *scope, want string, depth int) Expr {
 		switch g.r.Intn(7) {
 		case 0:
 			g.count("expr.not")
+			if g.chance(3) {
+				// negation (once or twice) over a parenthesised short-circuit whose last
+				// operand is a comparison: the jump over that operand lands right at the
+				// instructions the outer `not` adds
+				g.count("expr.not.over-short-circuit")
+				cmp := Binary{g.pick([]string{"!=", "<=", ">=", "==", "<", ">"}), g.expr(sc, "int", 0), g.expr(sc, "int", 0)}
+				first := g.pick2(g.lit(g.pick([]string{"bool", "int", "nil", "str"})), g.expr(sc, "any", d))
+				var e Expr = Unary{"not", Paren{Binary{g.pick([]string{"and", "or"}), first, cmp}}}
+				if g.chance(3) {
+					e = Unary{"not", e}
+				}
+				return e
+			}
 			return Unary{"not", g.expr(sc, "any", d)}
 		case 1, 2:
 			op := g.pick([]string{"==", "!="})
@@ -653,8 +666,58 @@ func (g *Gen) Program(nstmts int) []Stmt {
 	if g.chance(12) {
 		return g.bindFamily()
 	}
+	if g.chance(14) {
+		return g.scopeFamily()
+	}
 	sc := &scope{}
 	return g.stmts(sc, nstmts, 0)
+}
+
+// scopeFamily: what a name means after a nested block that used the same name has closed,
+// and sibling blocks whose names differ only by dots: a field or variable of a closed
+// child must not be visible afterwards, a field of the enclosing block must be, and
+// `t "n"`, `t "n."`, `t ".n"` are three different children.
+func (g *Gen) scopeFamily() []Stmt {
+	lit := func(n int) Expr { return Lit{"int", fmt.Sprint(n)} }
+	name := g.pick([]string{"x", "y", "srv"})
+	var outer []Stmt
+	if g.chance(2) {
+		outer = append(outer, ExprStmt{Assign{name, lit(1)}})
+	}
+	// one or two children that assign or declare the same name
+	nch := 1 + g.r.Intn(2)
+	for c := 0; c < nch; c++ {
+		var body []Stmt
+		switch g.r.Intn(3) {
+		case 0:
+			body = append(body, ExprStmt{Assign{name, lit(20 + c)}})
+		case 1:
+			body = append(body, VarStmt{name, lit(30 + c)}, ExprStmt{Assign{"k", Ident{name}}})
+		default:
+			body = append(body, ExprStmt{Assign{name, lit(40 + c)}},
+				DefStmt{"t", "", []Stmt{ExprStmt{Assign{name, lit(50 + c)}}, ExprStmt{Assign{"k", Ident{name}}}}})
+		}
+		nm := g.pick([]string{"", `"n"`, `"n."`, `".n"`, `"n.."`, `"N"`})
+		typ := g.pick([]string{"t", "u"})
+		outer = append(outer, DefStmt{typ, nm, body})
+		g.count("scopefamily.child")
+	}
+	// then the name is read in the enclosing block (a runtime error if nothing defines it there)
+	switch g.r.Intn(3) {
+	case 0:
+		outer = append(outer, ExprStmt{Assign{"after", Ident{name}}})
+	case 1:
+		outer = append(outer, PrintStmt{Ident{name}})
+	default:
+		outer = append(outer, ExprStmt{Assign{"after", Binary{"+", Ident{name}, lit(1)}}})
+	}
+	g.count("scopefamily")
+	prog := []Stmt{DefStmt{"srv", "", outer}}
+	if g.chance(2) {
+		// … and in a later toplevel block
+		prog = append(prog, DefStmt{"db", "", []Stmt{PrintStmt{Ident{name}}}})
+	}
+	return prog
 }
 
 // bindFamily: one to seven toplevel blocks of one type (told apart by a field),
